@@ -233,7 +233,9 @@ def run_C11(ctx, R):
 
 
 def run_C12(ctx, R):
-    search.rule_iter_standard(ctx, R, rules={"LAZY-PULL", "LAZY-END", "LAZY-NOBUF", "ITER-EXHAUST", "ITER-LABEL"})
+    # (ITER-STATE: the automaton state carried between next() calls — "all interleavings of next() calls" — is only ever the
+    # transition's result; a reset or a detour through the fail link between two calls loses matches that straddle the calls)
+    search.rule_iter_standard(ctx, R, rules={"LAZY-PULL", "LAZY-END", "LAZY-NOBUF", "ITER-EXHAUST", "ITER-LABEL", "ITER-STATE"})
     lazy.rule_lazy_ctor(ctx, R)
     lazy.rule_lazy_adapt(ctx, R)
     lazy.rule_dec(ctx, R)
@@ -298,11 +300,11 @@ def run_C16(ctx, R):
     cli.rule_cli_print(ctx, R)
     cli.rule_cli_hl2(ctx, R)
     search.rule_iter_standard(ctx, R, kinds=("find", "nosuffix"), rules={"ITER-OUT", "ITER-HEAD", "LAZY-END", "ITER-STATE", "ITER-LABEL", "ITER-ONE"})
-    # the line filter / interval union rest on the standard automaton being right (C02/C05's construction clauses)
+    # the line filter / interval union rest on the standard automaton being right: C02/C05's whole construction group (a phantom
+    # transition on a NUL byte makes a matching line disappear)
     E = Env(ctx, R)
     search.rule_trans(ctx, R)
-    nfa.rule_outputs_pass(ctx, R, E.NR)
-    nfa.rule_fail_passes(ctx, R, E.NR)
+    construction_rules(ctx, R, E)
 
 
 def run_NFA(ctx, R):
